@@ -188,13 +188,20 @@ def check_division(ctx, chk):
                         idx = q.values.index(child) if child in q.values else None
                         if idx:
                             for left in q.values[:idx]:
+                                if isinstance(left, ast.UnaryOp) and isinstance(left.op, ast.Not) \
+                                        and isinstance(left.operand, ast.Name):
+                                    # `not x or ...`: for an integer, x == 0
+                                    left = ast.Compare(left=left.operand, ops=[ast.Eq()],
+                                                       comparators=[ast.Constant(value=0)])
                                 if isinstance(left, ast.Compare) and len(left.ops) == 1 \
-                                        and isinstance(left.ops[0], ast.Eq) \
-                                        and isinstance(left.left, ast.Name) \
-                                        and isinstance(left.comparators[0], ast.Constant) \
-                                        and left.comparators[0].value == 0 \
-                                        and left.left.id in e2:
-                                    e2[left.left.id] = iv.refine_nonzero(e2[left.left.id])
+                                        and isinstance(left.ops[0], ast.Eq):
+                                    a_, b_ = left.left, left.comparators[0]
+                                    if isinstance(a_, ast.Constant):
+                                        a_, b_ = b_, a_          # 0 == x
+                                    if isinstance(a_, ast.Name) and isinstance(b_, ast.Constant) \
+                                            and b_.value == 0 and type(b_.value) is int \
+                                            and a_.id in e2:
+                                        e2[a_.id] = iv.refine_nonzero(e2[a_.id])
                     child, q = q, parents.get(q)
                 d = iv.evaluate(n.right, e2, consts)
                 construct = f"ScenarioGenerator.{name}: {alpha_norm(n)}"
